@@ -333,6 +333,9 @@ func runC03(r *rec, seed int64) *hx.Result {
 	} else {
 		want.Auth = []string{} // the create event of a domainless room reports no auth events, whatever it lists
 	}
+	if res := checkDomainless(r, p, &base, &b, "Build"); res != nil {
+		return res
+	}
 	if name, w, g := compareFields(&want, &base, true); name != "" {
 		return fail("C03/build/"+name, fmt.Sprintf("%s of the built event differs from the proto-event's (room version %s)", name, r.Ver), w, g)
 	}
@@ -408,6 +411,11 @@ func checkAddAuthEvents(r *rec, b *built) *hx.Result {
 	}
 	impl := gmsl.MustGetRoomVersion(gmsl.RoomVersion(r.Ver))
 	if r.Proto.Sender != "alice" {
+		return nil
+	}
+	if isDomainless(r.Ver) && b.pe.Type == spec.MRoomCreate && b.pe.StateKey != nil {
+		// EventBuilder.Build of these versions refuses every m.room.create-typed state event that has a room ID
+		// (also the ones that are not the create event): nothing is produced, the property says nothing
 		return nil
 	}
 	eb := impl.NewEventBuilderFromProtoEvent(&b.pe)
